@@ -724,12 +724,19 @@ class World:
             try:
                 pr = subprocess.run(["/venv/bin/python", "-W", "ignore", "-c", "from pyhf.cli import cli; cli()"] + argv4, input=stdin4 or "",
                                     capture_output=True, text=True, cwd=self.root, env=env, timeout=300)
-                if alt_out:
+                if cmd == "json2xml":
+                    # no document on stdout: the product is the directory, read it back
+                    from pathlib import Path
+
+                    self._restart()
+                    again = pyhf.readxml.parse(Path(self._p(op["outdir"])) / f"{op.get('resultprefix') or 'FitConfig'}.xml", Path(self.root))
+                    same = self._same(json.loads(json.dumps(again)), refv)
+                elif alt_out:
                     with open(self._p(alt_out), encoding="utf-8") as f:
                         other = json.load(f)
                     same = self._same(other, got_file)
                 else:
-                    same = (self._same(json.loads(pr.stdout), json.loads(r.stdout)) if cmd not in ("inspect", "ps_verify", "ps_inspect", "digest") or op.get("json")
+                    same = (self._same(json.loads(pr.stdout), json.loads(r.stdout)) if cmd not in ("inspect", "ps_verify", "ps_inspect", "digest") or (cmd == "digest" and op.get("json"))
                             else pr.stdout == r.stdout)
                 ctx.check(pr.returncode == 0 and same, "subprocess", dict(sig, cls="subprocess", what="differs"),
                           lambda: f"real subprocess (rc={pr.returncode}) disagrees with the in-process invocation: {pr.stdout[:200]!r} / {pr.stderr[-300:]!r}; {detail_ctx}")
